@@ -89,6 +89,25 @@ def run(ctx, res):
                 any(t.get('sgraphs') and len(t.get('poms', [])) >= 2 and any(p.get('graphs') for p in t['poms']) and any(not p.get('graphs') for p in t['poms']) for t in g['doc']):
             g['spelling'] = 'yarrrml'
             cases.append(g); found += 1
+    # directed: a referencing object map whose join is over differently named columns, and a template / reference graph map over a CHILD column whose
+    # name is also a column of the parent table (holding other values there): the graph is named from the child row.  Kind x placement taken in turn.
+    def tm(k, v, ck='iri', tt=''):
+        return {'k': k, 'v': v, 'ck': ck, 'tt': tt}
+    for i in range(ctx.scale(8, 40)):
+        gk = [tm('templ', EX + 'g/order/{id}'), tm('ref', 'uri', 'iri', 'iri'), tm('templ', EX + 'g/{id}-{note}'), tm('templ', EX + 'g/{customer}/{id}')][i % 4]
+        on_subject = (i // 4) % 2 == 0
+        orders = {'key': 'S0', 'kind': 'csv', 'cols': ['id', 'customer', 'note', 'uri'],
+                  'rows': [[str(j + 1), str(10 * (1 + (j + i) % 3)), 'n%d' % j, EX + 'g/o%d' % j] for j in range(3 + i % 3)]}
+        customers = {'key': 'S1', 'kind': 'csv', 'cols': ['id', 'name', 'note', 'uri'],
+                     'rows': [[str(10 * (j + 1)), 'c%d' % j, 'm%d' % j, EX + 'g/c%d' % j] for j in range(3)]}
+        par = {'id': EX + 'tm/Cust', 'src': 'S1', 'nonasserted': False, 'subj': tm('templ', EX + 'customer/{id}'), 'sjoins': [], 'classes': [], 'sgraphs': [],
+               'poms': [{'preds': [tm('const', EX + 'p/name')], 'objs': [{'m': tm('ref', 'name', 'lit'), 'lang': None, 'dt': None, 'joins': []}], 'graphs': []}]}
+        child = {'id': EX + 'tm/Order', 'src': 'S0', 'nonasserted': False, 'subj': tm('templ', EX + 'order/{id}'), 'sjoins': [], 'classes': [],
+                 'sgraphs': [gk] if on_subject else [],
+                 'poms': [{'preds': [tm('const', EX + 'p/by')], 'objs': [{'m': tm('parent', par['id']), 'lang': None, 'dt': None, 'joins': [['customer', 'id']]}],
+                           'graphs': [] if on_subject else [gk]},
+                          {'preds': [tm('const', EX + 'p/note')], 'objs': [{'m': tm('ref', 'note', 'lit'), 'lang': None, 'dt': None, 'joins': []}], 'graphs': []}]}
+        cases.append({'cfg': {'nquads': True, 'mode': ['NO', 'PARTIAL-AGGREGATIONS', 'MAXIMAL'][i % 3]}, 'sources': [orders, customers], 'doc': [child, par]})
     family.run_family(ctx, res, cases, features, style_fn=style_fn)
 
 
